@@ -435,7 +435,7 @@ impl Run<'_> {
                     self.rec.oracle(proves, "bundle-no-final-proof", || format!("recover: bundle does not prove finalized slot {}", fin.inner()));
                 }
                 // replay into a fresh pool: same finalized slot, same ready parents for the next window
-                if fin.inner() < 2 * 18000 {
+                {
                     let (mut p2, mut rx2, mut rr2) = new_pool(&sim.epoch);
                     for c in certs {
                         if let Ok(vc) = ValidatedCert::try_new(c.clone(), sim.epoch.epoch_info()) { let _ = catch(|| self.rt.block_on(p2.add_cert(vc))); }
@@ -448,7 +448,12 @@ impl Run<'_> {
                         while rr2.try_recv().is_ok() {}
                     }
                     let f2 = p2.finalized_slot();
-                    self.rec.oracle(f2 == fin, "bundle-replay-finalized", || format!("recover: fresh pool fed the bundle reaches finalized slot {} instead of {}", f2.inner(), fin.inner()));
+                    let far = fin.inner() >= 2 * alpenglow::types::SLOTS_PER_EPOCH;
+                    self.rec.oracle(f2 == fin, "bundle-replay-finalized", || if far {
+                        format!("recover: finalized slot {} is >= 2*SLOTS_PER_EPOCH past genesis: a fresh pool refuses the bundled certificates as SlotOutOfBounds and stays at finalized slot {}", fin.inner(), f2.inner())
+                    } else {
+                        format!("recover: fresh pool fed the bundle reaches finalized slot {} instead of {}", f2.inner(), fin.inner())
+                    });
                     let w = fin.next().first_slot_in_window();
                     let w = if w <= fin { Slot::new(w.inner() + 4) } else { w };
                     let mut r1: Vec<String> = sim.pool.parents_ready(w).iter().map(|(s, h)| format!("{}:{}", s.inner(), keys.hash_id[h])).collect();
